@@ -635,6 +635,261 @@ theorem desc_hi_number (ds : List UInt8) (hne : ds ≠ []) (hd : ∀ d ∈ ds, i
   simp only [digits_no_hash ds hd, glibcScanf, scanD_digits ds hne hd hv]
   split <;> split <;> simp_all <;> omega
 
+/-! #### the `#rrggbb` tail -/
+
+theorem xdigit_facts (c : UInt8) (h : isXDigit c = true) :
+    isSpace c = false ∧ (c == 45) = false ∧ (c == 43) = false ∧ (c == 120) = false ∧ (c == 88) = false ∧ xval c < 16 := by
+  have := uint8_forall (fun c => !isXDigit c || (!isSpace c && !(c == 45) && !(c == 43) && !(c == 120) && !(c == 88) && decide (xval c < 16)))
+    (by decide +kernel) c
+  simp [h] at this
+  simp [this]
+
+/-- `%2hhx` on two hexadecimal digits reads exactly those two. -/
+theorem scanHexW2_two (a b : UInt8) (rest : List UInt8) (ha : isXDigit a = true) (hb : isXDigit b = true) :
+    scanHexW 2 (a :: b :: rest) = some (UInt8.ofNat (xval a * 16 + xval b), rest) := by
+  have fa := xdigit_facts a ha
+  have fb := xdigit_facts b hb
+  generalize hr : UInt8.ofNat (xval a * 16 + xval b) = r
+  unfold scanHexW skipSpace
+  simp only [List.dropWhile_cons, fa.1, Bool.false_eq_true, if_false]
+  simp only [fa.2.1, fa.2.2.1, Bool.or_self, Bool.false_eq_true, if_false, List.head?_cons]
+  have hxa := fa.2.2.2.2.2
+  have hxb := fb.2.2.2.2.2
+  by_cases h0 : a = 48
+  · subst h0
+    have hx0 : xval 48 = 0 := by decide
+    simp [hb, fb.2.2.2.1, fb.2.2.2.2.1]
+    rw [← hr, hx0]
+    congr 1
+    omega
+  · have : (some a == some (48 : UInt8)) = false := by simp [h0]
+    simp [this, ha, hb]
+    rw [← hr]
+    congr 1
+    omega
+
+theorem scanRgb_hex6 (a b c d e f : UInt8) (rest : List UInt8)
+    (ha : isXDigit a = true) (hb : isXDigit b = true) (hc : isXDigit c = true) (hd : isXDigit d = true)
+    (he : isXDigit e = true) (hf : isXDigit f = true) :
+    scanRgb (a :: b :: c :: d :: e :: f :: rest) =
+      some ⟨UInt8.ofNat (xval a * 16 + xval b), UInt8.ofNat (xval c * 16 + xval d), UInt8.ofNat (xval e * 16 + xval f)⟩ := by
+  unfold scanRgb
+  rw [scanHexW2_two a b _ ha hb]; simp only
+  rw [scanHexW2_two c d _ hc hd]; simp only
+  rw [scanHexW2_two e f _ he hf]
+
+
+theorem takeWhile_append_stop {α} (p : α → Bool) (x t : List α) (h : ∀ c, t.head? = some c → p c = false) :
+    (x ++ t).takeWhile p = x.takeWhile p := by
+  induction x with
+  | nil =>
+    cases t with
+    | nil => rfl
+    | cons c t => simp [h c rfl]
+  | cons a x ih => simp only [List.cons_append, List.takeWhile_cons]; split <;> simp [ih]
+
+theorem dropWhile_append_cons {α} (p : α → Bool) (x t : List α) (c : α) (r : List α) (h : x.dropWhile p = c :: r) :
+    (x ++ t).dropWhile p = c :: r ++ t := by
+  induction x with
+  | nil => simp at h
+  | cons a x ih =>
+    simp only [List.cons_append, List.dropWhile_cons] at h ⊢
+    split
+    · next hp => simp only [hp, if_true] at h; exact ih h
+    · next hp => simp only [hp] at h; simp at h; obtain ⟨rfl, rfl⟩ := h; rfl
+
+theorem dropWhile_append_nil {α} (p : α → Bool) (x t : List α) (h : x.dropWhile p = []) :
+    (x ++ t).dropWhile p = t.dropWhile p := by
+  induction x with
+  | nil => rfl
+  | cons a x ih =>
+    simp only [List.cons_append, List.dropWhile_cons] at h ⊢
+    split
+    · next hp => simp only [hp, if_true] at h; exact ih h
+    · next hp => simp [hp] at h
+
+/-- The tail `spaces # …` of a description. -/
+def hashTail (n : Nat) (rest : List UInt8) : List UInt8 := List.replicate n 32 ++ 35 :: rest
+
+theorem hashTail_head (n : Nat) (rest : List UInt8) : ∀ c, (hashTail n rest).head? = some c → isDigit c = false := by
+  intro c h
+  cases n with
+  | zero => simp [hashTail] at h; subst h; decide
+  | succ n => simp [hashTail, List.replicate_succ] at h; subst h; decide
+
+theorem hashTail_skip (n : Nat) (rest : List UInt8) : skipSpace (hashTail n rest) = 35 :: rest := by
+  unfold skipSpace hashTail
+  induction n with
+  | zero =>
+    have : isSpace 35 = false := by decide
+    simp [List.dropWhile_cons, this]
+  | succ n ih =>
+    have : isSpace 32 = true := by decide
+    simp only [List.replicate_succ, List.cons_append, List.dropWhile_cons, this, if_true]; exact ih
+
+/-- `sscanf("%d")` does not see the `#…` tail. -/
+theorem scanD_hashTail (base : List UInt8) (n : Nat) (rest : List UInt8) :
+    scanD (base ++ hashTail n rest) = scanD base := by
+  unfold scanD
+  cases hb : skipSpace base with
+  | nil =>
+    have : skipSpace (base ++ hashTail n rest) = 35 :: rest := by
+      unfold skipSpace at hb ⊢
+      rw [dropWhile_append_nil _ _ _ hb]; exact hashTail_skip n rest
+    rw [this]
+    simp [isDigit]
+  | cons c b' =>
+    have : skipSpace (base ++ hashTail n rest) = c :: b' ++ hashTail n rest := by
+      unfold skipSpace at hb ⊢
+      exact dropWhile_append_cons _ _ _ _ _ hb
+    rw [this]
+    simp only [List.cons_append]
+    have h1 : (if (c == 45 || c == 43) = true then b' ++ hashTail n rest else c :: (b' ++ hashTail n rest)) =
+        (if (c == 45 || c == 43) = true then b' else c :: b') ++ hashTail n rest := by split <;> rfl
+    simp only [h1, takeWhile_append_stop isDigit _ _ (hashTail_head n rest)]
+
+
+theorem findIdx_hashTail (n : Nat) (rest : List UInt8) : (hashTail n rest).findIdx? (· == 35) = some n := by
+  unfold hashTail
+  induction n with
+  | zero => simp [List.findIdx?_cons]
+  | succ n ih =>
+    simp only [List.replicate_succ, List.cons_append, List.findIdx?_cons]
+    have : ((32 : UInt8) == 35) = false := by decide
+    simp [this, ih]
+
+theorem findIdx_base_tail (base : List UInt8) (n : Nat) (rest : List UInt8) (h1 : ∀ c ∈ base, (c == 35) = false) :
+    (base ++ hashTail n rest).findIdx? (· == 35) = some (base.length + n) := by
+  induction base with
+  | nil => simpa using findIdx_hashTail n rest
+  | cons a base ih =>
+    simp only [List.cons_append, List.findIdx?_cons, h1 a (List.mem_cons_self ..)]
+    simp [ih (fun c hc => h1 c (List.mem_cons_of_mem _ hc))]
+    omega
+
+theorem findIdx_base (base : List UInt8) (h1 : ∀ c ∈ base, (c == 35) = false) : base.findIdx? (· == 35) = none := by
+  rw [List.findIdx?_eq_none_iff]; exact h1
+
+theorem hashTail_getElem (n : Nat) (rest : List UInt8) (k : Nat) (h : k < n) : (hashTail n rest)[k]? = some 32 := by
+  unfold hashTail
+  rw [List.getElem?_append_left (by simpa using h)]
+  simp [h]
+
+theorem trimLen_tail (base : List UInt8) (n : Nat) (rest : List UInt8) (h2 : base.getLast? ≠ some 32) :
+    trimLen (base ++ hashTail n rest) (base.length + n) = base.length := by
+  induction n with
+  | zero =>
+    simp only [Nat.add_zero]
+    cases hb : base.length with
+    | zero => rfl
+    | succ k =>
+      unfold trimLen
+      have : (base ++ hashTail 0 rest)[k]? = base.getLast? := by
+        rw [List.getElem?_append_left (by omega), List.getLast?_eq_getElem?]
+        congr 1; omega
+      rw [this]
+      simp [h2]
+  | succ n ih =>
+    have : base.length + (n + 1) = (base.length + n) + 1 := by omega
+    rw [this]
+    unfold trimLen
+    have hk : (base ++ hashTail (n + 1) rest)[base.length + n]? = some 32 := by
+      rw [List.getElem?_append_right (by omega)]
+      exact hashTail_getElem _ _ _ (by omega)
+    rw [hk]
+    rw [if_pos (by decide)]
+    -- the array one space shorter has the same prefix
+    have : ∀ m, m ≤ base.length + n → trimLen (base ++ hashTail (n + 1) rest) m = trimLen (base ++ hashTail n rest) m := by
+      intro m hm
+      induction m with
+      | zero => rfl
+      | succ m ihm =>
+        unfold trimLen
+        have e : (base ++ hashTail (n + 1) rest)[m]? = (base ++ hashTail n rest)[m]? := by
+          by_cases hmb : m < base.length
+          · rw [List.getElem?_append_left hmb, List.getElem?_append_left hmb]
+          · rw [List.getElem?_append_right (by omega), List.getElem?_append_right (by omega)]
+            have hlt : m - base.length < n := by omega
+            rw [hashTail_getElem _ _ _ hlt, hashTail_getElem _ _ _ (by omega)]
+        rw [e, ihm (by omega)]
+    rw [this _ (Nat.le_refl _)]
+    exact ih
+
+
+theorem drop_tail (base : List UInt8) (n : Nat) (rest : List UInt8) :
+    (base ++ hashTail n rest).drop (base.length + n + 1) = rest := by
+  have : base.length + n + 1 = base.length + (n + 1) := by omega
+  rw [this, List.drop_append]
+  simp [hashTail, List.drop_append]
+
+theorem namePrefixMatch_tail (base name : List UInt8) (t : List UInt8) :
+    namePrefixMatch (base ++ t) name base.length = namePrefixMatch base name base.length := by
+  unfold namePrefixMatch
+  simp [List.take_append]
+
+/-- A description `base spaces # tail`, where `base` has no `#` and does not end in a space: the index is that
+    of `base` alone and the RGB8 is whatever `sscanf` makes of the tail (for any `sscanf` that does not let the
+    tail influence `"%d"`). -/
+theorem descParseCore_tail (sc : Scanf) (base : List UInt8) (n : Nat) (rest : List UInt8) (hi : Int)
+    (h1 : ∀ c ∈ base, (c == 35) = false) (h2 : base.getLast? ≠ some 32)
+    (hscan : sc.scanD (base ++ hashTail n rest) = sc.scanD base) :
+    descParseCore sc (base ++ hashTail n rest) hi =
+      (descParseCore sc base hi).map (fun r => (r.1, sc.scanRgb rest)) := by
+  unfold descParseCore
+  simp only [findIdx_base_tail base n rest h1, findIdx_base base h1, trimLen_tail base n rest h2, drop_tail, hscan,
+    namePrefixMatch_tail]
+  cases sc.scanD base with
+  | some v => simp only; split <;> simp
+  | none =>
+    simp only
+    cases colourNames.find? (fun e => namePrefixMatch base e.1 base.length) <;> simp
+
+
+theorem hashTail_cases (n : Nat) (rest : List UInt8) :
+    ∃ c t, hashTail n rest = c :: t ∧ (c = 32 ∨ c = 35) := by
+  cases n with
+  | zero => exact ⟨35, rest, rfl, Or.inr rfl⟩
+  | succ n => exact ⟨32, List.replicate n 32 ++ 35 :: rest, by simp [hashTail, List.replicate_succ], Or.inl rfl⟩
+
+theorem take3_tail (base : List UInt8) (n : Nat) (rest : List UInt8) :
+    ((base ++ hashTail n rest).take 3 == hiPrefix) = (base.take 3 == hiPrefix) := by
+  obtain ⟨c, t, ht, hc⟩ := hashTail_cases n rest
+  rw [ht]
+  match base with
+  | [] => rcases hc with rfl | rfl <;> simp [hiPrefix]
+  | [x] => rcases hc with rfl | rfl <;> simp [hiPrefix]
+  | [x, y] => rcases hc with rfl | rfl <;> simp [hiPrefix]
+  | x :: y :: z :: r => simp
+
+theorem descParse_tail (sc : Scanf) (base : List UInt8) (n : Nat) (rest : List UInt8)
+    (h1 : ∀ c ∈ base, (c == 35) = false) (h2 : base.getLast? ≠ some 32)
+    (hscan : ∀ b : List UInt8, sc.scanD (b ++ hashTail n rest) = sc.scanD b) :
+    descParse sc (base ++ hashTail n rest) = (descParse sc base).map (fun r => (r.1, sc.scanRgb rest)) := by
+  unfold descParse
+  rw [take3_tail]
+  split
+  · next hhi =>
+    have hlen : 3 ≤ base.length := by
+      match base, hhi with
+      | [], h => simp [hiPrefix] at h
+      | [_], h => simp [hiPrefix] at h
+      | [_, _], h => simp [hiPrefix] at h
+      | _ :: _ :: _ :: _, _ => simp
+    have hd : (base ++ hashTail n rest).drop 3 = base.drop 3 ++ hashTail n rest := by
+      rw [List.drop_append]; simp [Nat.sub_eq_zero_of_le hlen]
+    rw [hd]
+    apply descParseCore_tail _ _ _ _ _ (fun c hc => h1 c (List.mem_of_mem_drop hc)) _ (hscan _)
+    intro hl
+    apply h2
+    cases hdr : base.drop 3 with
+    | nil => simp [hdr] at hl
+    | cons a r =>
+      have : base = base.take 3 ++ base.drop 3 := (List.take_append_drop 3 base).symm
+      rw [this, hdr, List.getLast?_append]
+      rw [hdr] at hl
+      simp [hl]
+  · exact descParseCore_tail _ _ _ _ _ h1 h2 (hscan _)
+
 end Scan
 
 section History
